@@ -219,10 +219,13 @@ func makeMethodArshaler(fncs *arshaler, t reflect.Type) *arshaler {
 			}
 			xe := export.Encoder(enc)
 			prevDepth, prevLength := xe.Tokens.DepthLength()
+			withinOuterCall := xe.Flags.Get(jsonflags.WithinArshalCall)
 			xe.Flags.Set(jsonflags.WithinArshalCall | 1)
 			marshaler, _ := reflect.TypeAssert[MarshalerTo](va.Addr())
 			err := marshaler.MarshalJSONTo(enc)
-			xe.Flags.Set(jsonflags.WithinArshalCall | 0)
+			if !withinOuterCall {
+				xe.Flags.Set(jsonflags.WithinArshalCall | 0) // still set for an enclosing user call
+			}
 			currDepth, currLength := xe.Tokens.DepthLength()
 			if (prevDepth != currDepth || prevLength+1 != currLength) && err == nil {
 				err = errNonSingularValue
@@ -318,10 +321,13 @@ func makeMethodArshaler(fncs *arshaler, t reflect.Type) *arshaler {
 			if prevDepth == 1 && xd.AtEOF() {
 				return io.EOF // check EOF early to avoid fn reporting an EOF
 			}
+			withinOuterCall := xd.Flags.Get(jsonflags.WithinArshalCall)
 			xd.Flags.Set(jsonflags.WithinArshalCall | 1)
 			unmarshaler, _ := reflect.TypeAssert[UnmarshalerFrom](va.Addr())
 			err := unmarshaler.UnmarshalJSONFrom(dec)
-			xd.Flags.Set(jsonflags.WithinArshalCall | 0)
+			if !withinOuterCall {
+				xd.Flags.Set(jsonflags.WithinArshalCall | 0) // still set for an enclosing user call
+			}
 			currDepth, currLength := xd.Tokens.DepthLength()
 			if (prevDepth != currDepth || prevLength+1 != currLength) && err == nil {
 				err = errNonSingularValue
